@@ -275,9 +275,14 @@ func vfC11Check(c vfC11Case) error {
 	case "stdout-truncated":
 		stdout = stdout[:c.FaultAt%len(stdout)]
 	case "stdout-oversize":
-		binary.BigEndian.PutUint32(stdout, 2*1024*1024)
+		// (also lengths with the top bit set: 2 GiB and the largest one)
+		binary.BigEndian.PutUint32(stdout, []uint32{2 * 1024 * 1024, 0xFFFFFFFF, 0x80000000, 0x7FFFFFFF}[c.FaultAt%4])
 	case "stdout-garbage":
 		stdout = append([]byte{0, 0, 0, 4}, 0xff, 0xff, 0xff, 0xff)
+		if c.FaultAt%2 == 1 {
+			// a log line with a byte-order mark where the answer should be
+			stdout = append([]byte{0xEF, 0xBB, 0xBF}, []byte("2024/01/01 starting server\n")...)
+		}
 	}
 	stderrText := strings.Join(vfC11StderrLines(c), "\n")
 	if len(c.Stderr) > 0 && !c.NoFinalEOL {
